@@ -2,7 +2,7 @@
 import os
 from . import core
 
-CFGS = ["sse2", "sse2-rel", "scalar", "coresimd"]
+CFGS = ["sse2", "sse2-rel", "scalar", "coresimd", "fma"]   # fma: +fma,+avx2 (implies sse3 .. sse4.2): feature-gated fast paths
 
 
 def run(res, only=None):
